@@ -252,7 +252,7 @@ def run_coupled(ctx, case):
 # ---------------------------------------------------------------------------------------
 def enum_events(tier):
     vals = ["none", "int", "float", "object", "empty-list", "list1", "list2", "list5", "tuple1", "tuple2", "array0", "array1", "array2",
-            "array1-f8", "array3-f4", "range3"]
+            "array1-f8", "array3-f4", "range3", "nested-list-1x2", "array-1x2-f4", "array-2x2-f8", "array-1x1-f4", "nested-list-2x1", "array0d"]
     for kind in (0, 1):
         for v in vals:
             yield {"type": kind, "values": v}
@@ -264,21 +264,27 @@ def run_events(ctx, case):
     v = {"none": None, "int": 5, "float": 1.5, "object": object(), "empty-list": [], "list1": [1.5], "list2": [1.5, 2.5],
          "list5": [1, 2, 3, 4, 5], "tuple1": (1.5,), "tuple2": (1.5, 2.5), "array0": np.array([], dtype="<f4"),
          "array1": np.array([1.5], dtype="<f4"), "array2": np.array([1.5, 2.5], dtype="<f4"), "array1-f8": np.array([1.5]),
-         "array3-f4": np.array([1, 2, 3], dtype="<f4"), "range3": range(3)}[case["values"]]
+         "array3-f4": np.array([1, 2, 3], dtype="<f4"), "range3": range(3), "nested-list-1x2": [[1.5, 2.5]],
+         "array-1x2-f4": np.array([[1.5, 2.5]], dtype="<f4"), "array-2x2-f8": np.array([[1.5, 2.5], [3.5, 4.5]]), "array-1x1-f4": np.array([[1.5]], dtype="<f4"),
+         "nested-list-2x1": [[1.5], [2.5]], "array0d": np.array(1.5, dtype="<f4")}[case["values"]]
     kind = EventsDataType(case["type"])
-    iterable = case["values"] not in ("none", "int", "float", "object")
-    count = len(v) if iterable else None
-    should_accept = iterable and (kind == EventsDataType.eventSequence or count <= 1)
+    iterable = case["values"] not in ("none", "int", "float", "object", "array0d")
+    nested = case["values"].startswith(("nested-", "array-")) and "x" in case["values"]
+    count = int(np.size(v)) if iterable else None   # the number of VALUES handed in (a nested [[a, b]] holds two)
+    should_accept = iterable and not nested and (kind == EventsDataType.eventSequence or count <= 1)
+    unasserted = nested and count <= 1              # [[x]]: one value in an odd wrapping - either way is fine
     try:
         ev = Event("e", v, kind)
         exc = None
     except Exception as e:  # noqa
         ev, exc = None, e
+    if unasserted:
+        should_accept = exc is None
     if should_accept and exc is not None:
         ctx.fail("Event/refuses-valid", f"Event({case['values']}, {kind.name}) refused: {type(exc).__name__}: {exc}")
     if not should_accept and exc is None:
-        why = "non-iterable values" if not iterable else "more than one value for a single event"
-        ctx.fail(f"Event/accepts-{'non-iterable' if not iterable else 'many-for-single'}", f"Event({case['values']}, {kind.name}) accepted ({why})")
+        why = "non-iterable values" if not iterable else "values that are not a flat sequence" if nested else "more than one value for a single event"
+        ctx.fail(f"Event/accepts-{'non-iterable' if not iterable else 'nested-values' if nested else 'many-for-single'}", f"Event({case['values']}, {kind.name}) accepted ({why})")
     if exc is None:
         try:
             b = io.BytesIO()
